@@ -1,4 +1,5 @@
 import OdcGeo.Model.C02
+import OdcGeo.Model.C02Glue
 namespace OdcGeo.C02.Drv
 open OdcGeo OdcGeo.IO OdcGeo.C02 OdcGeo.C17
 
@@ -32,6 +33,138 @@ def parsePt? (s : String) : Option Pt :=
     | some x, some y => some (x, y)
     | _, _ => none
   | _ => none
+
+/-! glue ops: argument syntax
+  PyNum      `i5` | `f7/2`
+  ShapeArg   `S,ny,nx` | `X,<x>,<y>` | `Q,<n>,<n>,…` (`Q` = empty sequence) | `O`
+  ResArg     `n,<num>` | `r,<x>,<y>` | `O`        (optional: `N`)
+  ZoomArg    `N` | `#<num>` | <ShapeArg>
+  IdxS       `i:<k>` | `s:<a>:<b>:<step>`         (each `N` for None)
+-/
+def parsePyNum? (s : String) : Option PyNum :=
+  if s.startsWith "i" then (parseInt? (s.drop 1).toString).map PyNum.int
+  else if s.startsWith "f" then (parseRat? (s.drop 1).toString).map PyNum.flt
+  else none
+
+def parseShapeArg? (s : String) : Option ShapeArg :=
+  match s.splitOn "," with
+  | ["S", ny, nx] => do
+    let ny ← parseInt? ny; let nx ← parseInt? nx
+    pure (.shape2d ny nx)
+  | ["X", x, y] => do
+    let x ← parsePyNum? x; let y ← parsePyNum? y
+    pure (.xy x y)
+  | "Q" :: rest => (rest.mapM parsePyNum?).map ShapeArg.seq
+  | ["O"] => some .other
+  | _ => none
+
+def parseResArg? (s : String) : Option ResArg :=
+  match s.splitOn "," with
+  | ["n", r] => (parsePyNum? r).map ResArg.num
+  | ["r", x, y] => do
+    let x ← parseRat? x; let y ← parseRat? y
+    pure (.res x y)
+  | ["O"] => some .other
+  | _ => none
+
+def parseZoomArg? (s : String) : Option ZoomArg :=
+  if s = "N" then some .none
+  else if s.startsWith "#" then (parsePyNum? (s.drop 1).toString).map ZoomArg.num
+  else (parseShapeArg? s).map ZoomArg.shape
+
+def parseIdxS? (s : String) : Option IdxS :=
+  match s.splitOn ":" with
+  | ["i", k] => (parseInt? k).map IdxS.idx
+  | ["s", a, b, c] => do
+    let a ← parseOpt? parseInt? a; let b ← parseOpt? parseInt? b; let c ← parseOpt? parseInt? c
+    pure (.slc a b c)
+  | _ => none
+
+/-- `<crs> B <l> <b> <r> <t>` or `<crs> G [pts]` -/
+def parseRegion? (toks : List String) : Option Region :=
+  match toks with
+  | [crs, "B", l, b, r, t] => do
+    let crs ← parseNat? crs
+    let l ← parseRat? l; let b ← parseRat? b; let r ← parseRat? r; let t ← parseRat? t
+    pure (.bbox crs l b r t)
+  | [crs, "G", pts] => do
+    let crs ← parseNat? crs
+    let pts ← parseList? parsePt? pts
+    pure (.geom crs pts)
+  | _ => none
+
+/-- control point `px;py;wx;wy` -/
+def parseCp? (s : String) : Option (Pt × Pt) :=
+  match (s.splitOn ";").mapM parseRat? with
+  | some [a, b, c, d] => some ((a, b), (c, d))
+  | _ => none
+
+def fmtCp (cp : Pt × Pt) : String := s!"{fmtRat cp.1.1};{fmtRat cp.1.2};{fmtRat cp.2.1};{fmtRat cp.2.2}"
+
+/-- the driver has no pyproj: regions in another CRS are refused (`bad-op`), never answered -/
+def sameOrNoCrs (g : GeoBox) (crs : Nat) : Bool := crs == 0 || g.crs == 0 || crs == g.crs
+
+def noReproj : Nat → Nat → Pt → Pt := fun _ _ p => p
+
+def runGlue (op : String) (g : GeoBox) (args : List String) : Option String :=
+  match op, args with
+  | "rsz", [s] => do
+    let s ← parseShapeArg? s
+    pure (fmtRes fmtGB (resizeArg g s))
+  | "zto", [z, r] => do
+    let z ← parseZoomArg? z
+    let r ← parseOpt? parseResArg? r
+    pure (fmtRes fmtGB (zoomTo g z r))
+  | "gi1", [s] => do
+    let s ← parseIdxS? s
+    pure (fmtRes fmtGB (getitem noReproj g (.one s)))
+  | "giS", [l] => do
+    let l ← parseList? parseIdxS? l
+    pure (fmtRes fmtGB (getitem noReproj g (.seq l)))
+  | "giR", toks => do
+    let r ← parseRegion? toks
+    if sameOrNoCrs g r.crs then pure (fmtRes fmtGB (getitem noReproj g (.region r))) else none
+  | "enclA", toks => do
+    let r ← parseRegion? toks
+    if sameOrNoCrs g r.crs then pure (fmtRes fmtGB (enclosingArg noReproj g r)) else none
+  | "proj", [crs, pts] => do
+    let crs ← parseNat? crs
+    let pts ← parseList? parsePt? pts
+    if sameOrNoCrs g crs then
+      pure (fmtRes (fun (o : Nat × List Pt) => s!"{o.1} {fmtList fmtPtS o.2}") (project noReproj g crs pts))
+    else none
+  | "empty", [] => pure (fmtBool (isEmpty g))
+  | "aspect", [] => pure (fmtRes fmtRat (aspect g))
+  | "rres", [n] => do
+    let n ← parseInt? n
+    pure (fmtRes fmtRat (reprojectResolution g n))
+  | "fbuf", [n, m, b] => do
+    let n ← parseRat? n; let m ← parseRat? m; let b ← parseRat? b
+    pure (fmtRes (fmtOpt fmtRat) (footprintBufferDist g n m b))
+  | "gp2w", [B, x, y] => do
+    let B ← parseAff? B; let x ← parseRat? x; let y ← parseRat? y
+    pure (fmtPt (gcpPix2wld B.apply g (x, y)))
+  | "gw2p", [B, x, y] => do
+    let B ← parseAff? B; let x ← parseRat? x; let y ← parseRat? y
+    if B.det = 0 then none else pure (fmtRes fmtPt (gcpWld2pix B.inv.apply g (x, y)))
+  | "gext", [B] => do
+    let B ← parseAff? B
+    pure (fmtList fmtPtS (gcpExtent B.apply g))
+  | "gbbox", [B] => do
+    let B ← parseAff? B
+    pure (fmtRes (fun (b : BBox) => s!"{fmtRat b.left} {fmtRat b.bottom} {fmtRat b.right} {fmtRat b.top}") (gcpBoundingbox B.apply g))
+  | "gmapb", [B] => do
+    let B ← parseAff? B
+    pure (fmtRes (fun (m : (Rat × Rat) × (Rat × Rat)) => s!"{fmtRat m.1.1} {fmtRat m.1.2} {fmtRat m.2.1} {fmtRat m.2.2}")
+      (gcpMapBounds B.apply g))
+  | "gtocrs", [cps, dst] => do
+    let cps ← parseList? parseCp? cps
+    let dst ← parseNat? dst
+    pure (fmtRes (fun (o : GeoBox × List (Pt × Pt)) => s!"{fmtGB o.1} {fmtList fmtCp o.2}") (gcpToCrs (fun w => w) g cps dst))
+  | "gcpres", [B, n, m] => do
+    let B ← parseAff? B; let n ← parseRat? n; let m ← parseRat? m
+    pure (fmtRes fmtPt (gcpResolution B g n m))
+  | _, _ => none
 
 def runOp (op : String) (g : GeoBox) (args : List String) : Option String :=
   match op, args with
@@ -120,7 +253,7 @@ def runOp (op : String) (g : GeoBox) (args : List String) : Option String :=
     let n ← parseRat? n; let m ← parseRat? m
     let xb ← parseRat? xb; let yb ← parseOpt? parseRat? yb
     pure (fmtRes fmtGB (buffered g n m xb yb))
-  | _, _ => none
+  | _, _ => runGlue op g args
 
 /-- keep only the shape (`ny nx`) of a printed geobox; errors pass through -/
 def shapeOnly (out : String) : String :=
@@ -137,6 +270,15 @@ def run (args : List String) : Option String :=
   | ["fitkind", n] => do
     let n ← parseNat? n
     pure (fmtRes (fun (k : Nat) => toString k) (fitKind n))
+  | ["mkgcp", shape, aff, crs] => do
+    let shape ← parseShapeArg? shape
+    let aff ← parseOpt? parseAff? aff
+    let crs ← parseNat? crs
+    pure (fmtRes fmtGB (mkGcp shape aff crs))
+  | ["giG", ny, nx, aff, crs, ny2, nx2, aff2, crs2] => do
+    let g ← parseGB? ny nx aff crs
+    let w ← parseGB? ny2 nx2 aff2 crs2
+    if sameOrNoCrs g w.crs then pure (fmtRes fmtGB (getitem noReproj g (.gbox w))) else none
   | ["cropGB", ny, nx, aff, crs, ny2, nx2, aff2, crs2] => do
     let g ← parseGB? ny nx aff crs
     let w ← parseGB? ny2 nx2 aff2 crs2
